@@ -306,8 +306,9 @@ func runPair(id int, rng *rand.Rand, chaos time.Duration) [][]vt.M {
 	const da, db = 0xaaaa, 0xbbbb
 	la, lb := newLog(da, db), newLog(db, da)
 	mk := func(d uint32) *bfd.Session {
-		return &bfd.Session{LocalDiscriminator: layers.BFDDiscriminator(d), DetectMult: 5, ReceiveQueueSize: 10,
-			DesiredMinTxInterval: 20 * time.Millisecond, RequiredMinRxInterval: 20 * time.Millisecond}
+		// detection time 8 x 50 ms = 400 ms: scheduling stalls on a loaded machine do not expire it
+		return &bfd.Session{LocalDiscriminator: layers.BFDDiscriminator(d), DetectMult: 8, ReceiveQueueSize: 10,
+			DesiredMinTxInterval: 50 * time.Millisecond, RequiredMinRxInterval: 50 * time.Millisecond}
 	}
 	a, b := mk(da), mk(db)
 	admin := rng.Intn(2) == 0
